@@ -93,6 +93,8 @@ HcvOK == (kind = "hcv") =>
         rs == RowSum(t, CA, CB)
         cs == ColSum(t, CA, CB)
     IN
+    (* the per-label formulation of "injective relabelling" is the pairwise one *)
+    /\ (SameByRelabelling(a, b) <=> \A i, j \in Idx(a) : (a[i] = a[j]) <=> (b[i] = b[j]))
     /\ PureClusters(t, CA, CB) = PureClasses(ts, CB, CA)
     /\ (Cardinality(CA) = 1 => PureClusters(t, CA, CB))
     /\ (Cardinality(CB) = 1 => PureClasses(t, CA, CB))
